@@ -232,8 +232,8 @@ def gen(rng, tier):
 
 # --------------------------------------------------------------------------- correspondence
 def correspond(cases, obs, tag, tier):
-    plain = [(i, view(c, o), o) for i, (c, o) in enumerate(zip(cases, obs)) if c.get('kind') != 'hist']
-    hist = [(i, c, o) for i, (c, o) in enumerate(zip(cases, obs)) if c.get('kind') == 'hist']
+    plain = [(i, view(c, o), o) for i, (c, o) in enumerate(zip(cases, obs)) if c.get('kind') != 'hist' and sc.k_comparable(c)]
+    hist = [(i, c, o) for i, (c, o) in enumerate(zip(cases, obs)) if c.get('kind') == 'hist' and sc.k_comparable(c)]
     bad, errs = [], []
     if plain:
         b, e = sc.correspond_solve([x[1] for x in plain], [x[2] for x in plain], tag + 'a')
